@@ -21,9 +21,20 @@ try:
     assert rc == 0, "patch does not apply: " + o
     pkgs = sorted({"./" + os.path.dirname(f) + "/..." for f in meta["files_touched"] if f.endswith(".go")})
     rc, o = sh("go build %s" % " ".join(pkgs)); ran.append("go build " + " ".join(pkgs)); assert rc == 0, "build fails: " + o[-2000:]
+    def failing(o):
+        return sorted({l.split()[2] for l in o.splitlines() if l.startswith("--- FAIL") and len(l.split()) > 2})
     rc, o = sh("go test -count=1 %s" % " ".join(pkgs)); ran.append("go test -count=1 %s (with patch): rc=%d" % (" ".join(pkgs), rc))
-    fails = [l for l in o.splitlines() if l.startswith("--- FAIL") or l.startswith("FAIL")]
+    fails = failing(o)
     tests_pass = rc == 0
+    if not tests_pass:
+        # some packages have tests that always fail in this sandbox (they need a non-root user);
+        # the seeded change must not change the set of failing tests
+        sh("git apply -R %s" % patch)
+        rcb, ob = sh("go test -count=1 %s" % " ".join(pkgs))
+        sh("git apply %s" % patch)
+        base = failing(ob)
+        ran.append("baseline failing tests (no patch): %s; with patch: %s" % (base, fails))
+        tests_pass = (base == fails) and ("build failed" not in o)
     # demo: the cp + go test command recorded by the seeding agent (paths relative to the worktree, _seed/ -> src)
     demo = meta["demo_cmd"].split("#")[0].strip()
     demo = re.sub(r"_seed/m\d+/", src.rstrip("/") + "/", demo)
